@@ -108,7 +108,7 @@ def cases(draw, path):
     module = 'safe' if (km['cls'] == 'keymap' and not km['flat']) else draw(st.sampled_from(['std', 'safe']))
     return {'sig': sig, 'kind': kind, 'b1': b1, 'b2': b2, 'edits': ek, 'ignore': spec, 'form1': draw(st.integers(0, 255)),
             'form2': draw(st.integers(0, 255)), 'keymap': km, 'path': path, 'module': module,
-            'algo': draw(st.sampled_from(['inf', 'lru', 'lfu', 'mru', 'rr']))}
+            'algo': draw(st.sampled_from(['inf', 'lru', 'lfu', 'mru', 'rr'] + H.DISPATCHED))}
 
 
 def strata(tier):
